@@ -19,12 +19,12 @@ import (
 
 type intrinsicFn func(fr *frame, args []value) value
 
-var intrinsics map[string]intrinsicFn
+var intrinsics = map[string]intrinsicFn{}
 
 const nondetPkg = "github.com/DataDog/extendeddaemonset/zzverif/nondet"
 
 func init() {
-	intrinsics = map[string]intrinsicFn{
+	for k, v := range map[string]intrinsicFn{
 		// ---- logging / events / metrics: no-ops --------------------------------
 		"(github.com/go-logr/logr.Logger).Info":       nop,
 		"(github.com/go-logr/logr.Logger).Error":      nop,
@@ -167,6 +167,8 @@ func init() {
 			fr.fingerprint(&sb, a[0], 0)
 			return tuple{bytesVal([]byte(sb.String())), iface{}}
 		},
+	} {
+		intrinsics[k] = v
 	}
 	registerNondet()
 	registerTime()
